@@ -116,5 +116,5 @@ package chacha20
 //@ func NewUnauthenticatedCipher
 //@ props C03
 //@ ensures iff(result1 == nil, len(key) == 32 && (len(nonce) == 12 || len(nonce) == 24))
-//@ ensures implies(result1 == nil, result0 != nil && cinv(result0) && pos(result0) == 0)
+//@ ensures implies(result1 == nil, result0 != nil && newobj(result0) && cinv(result0) && pos(result0) == 0)
 //@ canary ensures result1 == nil
